@@ -287,6 +287,10 @@ func (g *wGen) payloadLen(capacity int) int {
 	wl := capacity + 14
 	cands := []int{0, 1, 2, 124, 125, 126, 127, capacity - 1, capacity, capacity + 1, 2*capacity - 1, 2 * capacity, 2*capacity + 1,
 		2*wl - 1, 2 * wl, 2*wl + 1, 2*wl + 2, 3*capacity + 1}
+	if g.opt.bigPayload && r.Intn(4) == 0 {
+		// the 16-bit / 64-bit length boundary, in one frame when the write path allows it (round-9 change C01-17)
+		return []int{65535, 65536, 65536, 65536, 65537, 65534, 70000}[r.Intn(7)]
+	}
 	switch x := r.Intn(20); {
 	case x < 11:
 		n := cands[r.Intn(len(cands))]
